@@ -1237,8 +1237,137 @@ def c18_e2e_world(job):
         return True, (f"c18-e2e-{kind}-exception:" + type(e).__name__, f"gen_coords ({kind}): {type(e).__name__}: {e} at {os.path.basename(tb.filename)}:{tb.lineno}")
 
 
+# ---- -start / -lig after a -split (residues are renumbered from 0: residue id 0 exists) ------------------
+
+C18_PS_NAMES = ["A", "A", "L", "L", "L"]
+C18_PS_SIZES = {"X": 0.4, "P": 0.45, "Q": 0.35, "W": 0.3}
+C18_PS_LIGANDS = [
+    [(("A", None, "X", 0), ("L", None, None, None))],
+    [(("A", 0, "X", 0), ("L", 3, None, 0))],
+    [((None, 1, None, 0), (None, 4, "W", 0))],
+    [(("A", None, "P", 1), ("L", None, "W", 0))],
+    [(("A", 1, "X", 5), ("L", 2, None, None)), (("A", 0, None, 0), ("L", 3, None, None))],
+    [(("A", None, None, 0), ("L", None, None, 0))],
+]
+C18_PS_STARTS = [("A", None, "X", 0), ("A", 1, None, 0), (None, None, "X", 0), ("A", None, "X", 5), ("A", None, "Q", 2), (None, 0, "Q", 4),
+                 ("L", None, None, 0), (None, 3, "W", 0), ("A", None, None, 3)]
+
+
+def c18_postsplit_top_text():
+    text = c18_split_top_text("abc", [("a", "b"), ("b", "c")])
+    head = text[:text.index("[ system ]")]
+    lig = "[ moleculetype ]\nL 1\n\n[ atoms ]\n1 P 1 W w 1 0.0 72.0\n\n"
+    return head + lig + "[ system ]\nbounded\n\n[ molecules ]\nA 2\nL 3\n"
+
+
+def c18_postsplit_world(job):
+    """gen_coords order: read, preprocess, -split, build file, -start, -lig, build, hand back"""
+    d, tag, kind, payload, seed = job
+    import random as pyrandom
+    al = load("polyply.src.annotate_ligands")
+    bs = load("polyply.src.build_system")
+    gc = load("polyply.src.gen_coords")
+    ll = load("polyply.src.load_library")
+    from pathlib import Path
+    np.random.seed(seed)
+    pyrandom.seed(seed)
+    names = C18_PS_NAMES
+
+    def mol_ok(i, spec):
+        return (spec[0] is None or names[i] == spec[0]) and (spec[1] is None or i == spec[1])
+
+    def nodes_of(mol, spec):
+        return [n for n in mol.nodes if (spec[2] is None or mol.nodes[n]["resname"] == spec[2]) and (spec[3] is None or mol.nodes[n]["resid"] == spec[3])]
+    try:
+        top = c18_load_top(d, tag, c18_postsplit_top_text())
+        for mol in top.molecules:
+            mol.split_residue(["S:P-a,b:Q-c"])
+        mols = list(top.molecules)
+        layout = [[(mol.nodes[n]["resname"], mol.nodes[n]["resid"]) for n in mol.nodes] for mol in mols]
+        want_layout = [[("X", 0), ("P", 1), ("Q", 2), ("P", 3), ("Q", 4), ("X", 5)]] * 2 + [[("W", 0)]] * 3
+        if layout != want_layout:
+            return True, ("c18-postsplit-setup", f"residues after the split {layout}")
+        if kind == "start":
+            spec = payload
+            text = c18_spec_string(*spec)
+            sel = [i for i in range(len(mols)) if mol_ok(i, spec)]
+            cand = {i: nodes_of(mols[i], spec) for i in sel}
+            try:
+                sd = gc.find_starting_node_from_spec(top, [text])
+            except Exception as e:      # noqa: BLE001
+                if sel and all(cand[i] for i in sel):
+                    return True, ("c18-start-exception", f"after -split, -start '{text}' names residues in molecules {sel} but raises {type(e).__name__}: {e}")
+                return True, None
+            for i in range(len(mols)):
+                v = sd.get(i)
+                if i in sel and cand[i]:
+                    if v not in cand[i]:
+                        return True, ("c18-start-selection", f"after -split, -start '{text}': molecule {i} starts at node {v} "
+                                                             f"({mols[i].nodes[v]['resname']}{mols[i].nodes[v]['resid']} if a node), the spec names nodes {cand[i]}")
+                elif v is not None:
+                    return True, ("c18-start-selection", f"after -split, -start '{text}': molecule {i} is not named by the spec but starts at {v}")
+            return True, None
+        pairs = payload
+        bld = _write(os.path.join(d, f"{tag}.bld"), "[ volumes ]\n" + "".join(f"{k} {v}\n" for k, v in C18_PS_SIZES.items()))
+        ll.load_build_files(top, None, [Path(bld)])
+        before = [(list(m.nodes), {frozenset(e) for e in m.edges}) for m in mols]
+        ann = al.AnnotateLigands(top, [(c18_spec_string(*h), c18_spec_string(*l)) for h, l in pairs])
+        ann.run_system(top)
+        attached = []
+        for i, m in enumerate(mols):
+            for n in m.nodes:
+                if n in before[i][0]:
+                    continue
+                lig, nbrs = m.nodes[n].get("ligated"), list(m.neighbors(n))
+                if lig is None or len(nbrs) != 1:
+                    return True, ("c18-ligand-attachment", f"after -split: new residue {n} of molecule {i} is not attached to exactly one host / not marked as ligand")
+                attached.append((i, nbrs[0], n, lig[0], lig[1]))
+        want_hosts = []
+        for (h, l) in pairs:
+            hosts = [(i, n) for i in range(len(mols)) if mol_ok(i, h) for n in before[i][0]
+                     if (h[2] is None or mols[i].nodes[n]["resname"] == h[2]) and (h[3] is None or mols[i].nodes[n]["resid"] == h[3])]
+            want_hosts += hosts
+            for (i, hn, n, li, ln) in attached:
+                if (i, hn) in hosts and not (mol_ok(li, l) and ln in nodes_of(mols[li], l)):
+                    return True, ("c18-ligand-selection", f"after -split: host {i}:{hn} got ligand molecule {li} residue {ln}, which '{c18_spec_string(*l)}' does not name")
+        got_hosts = sorted((i, hn) for (i, hn, *_r) in attached)
+        if got_hosts != sorted(want_hosts):
+            def show(lst):
+                return [(i, f"{mols[i].nodes[n]['resname']}{mols[i].nodes[n]['resid']}") for i, n in lst]
+            return True, ("c18-ligand-selection", f"after -split S:P-a,b:Q-c, -lig {[c18_spec_string(*h) + ':' + c18_spec_string(*l) for h, l in pairs]}: ligands attached to "
+                                                  f"{show(got_hosts)}, the specs name exactly {show(sorted(want_hosts))}")
+        box = np.array([9.0, 10.0, 11.0])
+        start_dict = gc.find_starting_node_from_spec(top, [])
+        bs.BuildSystem(top, density=None, start_dict=start_dict, box=box, step_fudge=1.0, grid_spacing=0.5, nrewind=3).run_system(top.molecules)
+        handed = {}
+        for (i, hn, n, li, ln) in attached:
+            pnt, q = mols[i].nodes[n]["position"], mols[i].nodes[hn]["position"]
+            step = 0.5 * (C18_PS_SIZES[mols[i].nodes[hn]["resname"]] + C18_PS_SIZES[mols[i].nodes[n]["resname"]])
+            if abs(_min_image(pnt, q, box) - step) > 1e-6:
+                return True, ("c18-ligand-not-one-step", f"after -split: ligand residue {n} is {_min_image(pnt, q, box):.6f} nm from its host {i}:{hn}, one step is {step:.6f}")
+            handed[(li, ln)] = np.array(pnt, float)
+        ann.split_ligands()
+        if len(top.molecules) != len(mols) or any(x is not y for x, y in zip(top.molecules, mols)):
+            return True, ("c18-ligand-molecule-list", "after -split: the molecule list changed when ligands were handed back")
+        for i, m in enumerate(mols):
+            if list(m.nodes) != before[i][0] or {frozenset(e) for e in m.edges} != before[i][1]:
+                return True, ("c18-ligand-host-changed", f"after -split: molecule {i} does not have its own residues/edges back")
+        for (li, ln), pnt in handed.items():
+            got = mols[li].nodes[ln].get("position")
+            if got is None or not np.array_equal(np.asarray(got, float), pnt):
+                return True, ("c18-ligand-not-handed-back", f"after -split: ligand molecule {li} residue {ln} has position {got}, placed at {pnt}")
+        return True, None
+    except Exception as e:      # noqa: BLE001
+        import traceback
+        tb = traceback.extract_tb(e.__traceback__)[-1]
+        key = "c18-split-missing-build-attr" if isinstance(e, KeyError) and str(e) in ("'build'", "'backmap'") else "c18-postsplit-exception:" + type(e).__name__
+        return True, (key, f"after -split ({kind} {payload}): {type(e).__name__}: {e} at {os.path.basename(tb.filename)}:{tb.lineno}")
+
+
 def _c18_dispatch(job):
     kind, payload = job
+    if kind == "postsplit":
+        return kind, [c18_postsplit_world(payload)]
     if kind == "bld":
         return kind, c18_buildfile_chunk(payload)
     if kind == "spec":
@@ -1259,7 +1388,7 @@ def run_c18(ctx, res):
         for c in range(0, len(worlds), chunk):
             jobs.append(("bld", (d, f"b{c}", worlds[c:c + chunk])))
             descr.append([{"build_file": c18_build_text(w)} for w in worlds[c:c + chunk]])
-        specs = [(mn, ix, rn, ri) for mn in (None, "A", "B", "L") for ix in (None, 0, 2, 3, 6) for rn in (None, "X", "Y", "W") for ri in (None, 1, 3, 4)]
+        specs = [(mn, ix, rn, ri) for mn in (None, "A", "B", "L") for ix in (None, 0, 2, 3, 6) for rn in (None, "X", "Y", "W") for ri in (None, 0, 1, 3, 4)]       # residue id 0 is a legal id (residues are numbered from 0 after -split)
         for c in range(0, len(specs), 40):
             jobs.append(("spec", (d, f"s{c}", specs[c:c + 40])))
             descr.append([{"spec": c18_spec_string(*s)} for s in specs[c:c + 40]])
@@ -1280,6 +1409,13 @@ def run_c18(ctx, res):
             for sd in range(nseeds):
                 jobs.append(("lig", (d, f"l{w}_{sd}", pairs, _seed_of("c18", ctx.seed, w, sd))))
                 descr.append([{"ligands": [f"{c18_spec_string(*h)}:{c18_spec_string(*l)}" for h, l in pairs]}])
+        for k, spec in enumerate(C18_PS_STARTS):
+            jobs.append(("postsplit", (d, f"ps{k}", "start", spec, 0)))
+            descr.append([{"after_split": "S:P-a,b:Q-c", "start": c18_spec_string(*spec)}])
+        for k, pairs in enumerate(C18_PS_LIGANDS):
+            for sd in range(nseeds):
+                jobs.append(("postsplit", (d, f"pl{k}_{sd}", "lig", pairs, _seed_of("c18ps", ctx.seed, k, sd))))
+                descr.append([{"after_split": "S:P-a,b:Q-c", "ligands": [f"{c18_spec_string(*h)}:{c18_spec_string(*l)}" for h, l in pairs]}])
         for kind in ("split", "lig", "lig-sizes"):
             jobs.append(("e2e", (d, f"e{kind}", kind, _seed_of("c18e", ctx.seed, kind))))
             descr.append([{"gen_coords": kind}])
@@ -1304,10 +1440,11 @@ def run_c18(ctx, res):
                  "reversed and enclosing, directive kinds sphere/cylinder/rectangle/rw_restriction cycled; two blocks (6 ranges: overlapping, adjacent, nested, empty; "
                  "same and different names) x two directives (4 resid ranges, thorough 6) x 3 kind pairs: "
                  f"{counts.get('bld', 0)} files read by load_build_files.  SPECS (exhaustive): {counts.get('spec', 0)} strings = every subset of the four fields omitted x "
-                 "molname in (A,B,L) x index in (0,2,3,6) x resname in (X,Y,W) x resid in (1,3,4) through parse_residue_spec, _find_nodes on every molecule, "
+                 "molname in (A,B,L) x index in (0,2,3,6) x resname in (X,Y,W) x resid in (0,1,3,4) through parse_residue_spec, _find_nodes on every molecule, "
                  f"find_starting_node_from_spec.  SPLIT: {counts.get('split', 0)} worlds = every partition of a 2-4 atom residue (chain, triangle, star) into 2-3 connected named parts x 2 namings, "
                  f"two molecule types.  LIGANDS: {len(C18_LIGAND_WORLDS)} spec pairs (fields omitted on both sides, 1-4 hosts, two definitions) x {2 if not ctx.thorough else 8} seeds through AnnotateLigands + the real "
-                 "BuildSystem + split_ligands.  PROGRAM: gen_coords with -split, -lig, -lig + [ volumes ] -> .gro"
+                 f"BuildSystem + split_ligands.  AFTER -split (residue ids from 0): {len(C18_PS_STARTS)} -start specs and {len(C18_PS_LIGANDS)} -lig sets naming residue id 0 "
+                 "(hosts, ligands, with and without the other fields) through split_residue, AnnotateLigands, BuildSystem, split_ligands.  PROGRAM: gen_coords with -split, -lig, -lig + [ volumes ] -> .gro"
                  + (f".  Violation classes seen (worlds): {classes}" if classes else ""))
     res.rule = ("non-trivial iff the build file selects a proper non-empty subset of the residues / the spec omits a field / always for split and ligand worlds; "
                 "options are recognised on a residue by a number unique to the directive, so the check does not depend on how the package stores an option")
@@ -1460,6 +1597,9 @@ def c15_build_text(user):
 def c15_world(job):
     """worker: job = dict(moltypes, counts, user, dir, id, skip_filter); returns (nontrivial, [(key, text)])"""
     d, tag = job["dir"], f"c15_{job['id']}"
+    import random as pyrandom
+    np.random.seed(job.get("seed", 0))          # the initial 3-d layout of a template is drawn from numpy's global generator
+    pyrandom.seed(job.get("seed", 0))
     top_mod = load("polyply.src.topology")
     gt = load("polyply.src.generate_templates")
     ll = load("polyply.src.load_library")
@@ -1554,10 +1694,13 @@ def c15_world(job):
                     if abs(got - th) > tol_ang + 1e-7:
                         bads.append(("c15-optimised-misses-target", f"{where}: reported optimised, angle {a}-{b}-{c} is {got:.3f}, target {th} +- {tol_ang}"))
                 for a, b, c, dd, ph in r["impropers"]:
+                    # GROMACS (IUPAC) sign convention, see _dihedral_deg; the sign is part of the target
                     got = _dihedral_deg(pos[a], pos[b], pos[c], pos[dd])
-                    dev = min(abs((got - ph + 180) % 360 - 180), abs((-got - ph + 180) % 360 - 180))
+                    dev = abs((got - ph + 180) % 360 - 180)
                     if dev > tol_ang + 1e-7:
-                        bads.append(("c15-optimised-misses-target", f"{where}: reported optimised, improper {a}-{b}-{c}-{dd} is {got:.3f}, target {ph} +- {tol_ang}"))
+                        mirror = abs((-got - ph + 180) % 360 - 180) <= tol_ang + 1e-7
+                        bads.append(("c15-optimised-improper-wrong-sign" if mirror else "c15-optimised-misses-target",
+                                     f"{where}: reported optimised, improper {a}-{b}-{c}-{dd} is {got:.3f} deg (GROMACS sign convention), target {ph} +- {tol_ang}"))
             # user supplied values
             if from_user:
                 _rn, uatoms, _ub, with_bonds = user_templates[r["name"]]
@@ -1586,6 +1729,10 @@ def c15_world(job):
                                                                       f"but templates {k1} / {k2}, sizes {top.volumes.get(k1)} / {top.volumes.get(k2)}"))
                 if names1 != names2 and k1 == k2:
                     bads.append(("c15-different-residues-share-template", f"residues {r1['name']} {names1} and {r2['name']} {names2} share template {k1}"))
+                elif not iso and k1 == k2:
+                    bads.append(("c15-non-isomorphic-residues-share-template",
+                                 f"residues {r1['name']} (position {i}, bonds {sorted(c15_labelled_graph(r1).edges)}) and {r2['name']} (position {j}, bonds "
+                                 f"{sorted(c15_labelled_graph(r2).edges)}) have the same atom names but different connectivity and share template {k1}"))
         for key, size in top.volumes.items():
             if not (np.isfinite(size) and size > 0):
                 bads.append(("c15-size-not-positive", f"size table entry {key}: {size}"))
@@ -1684,8 +1831,9 @@ def c15_vs_residues(ctx):
 def c15_jobs(ctx, d):
     jobs = []
 
-    def add(moltypes, counts, user=None, nontrivial=True, what="", skip_filter=False):
-        jobs.append(dict(moltypes=moltypes, counts=counts, user=user, nontrivial=nontrivial, what=what, dir=d, id=len(jobs), skip_filter=skip_filter))
+    def add(moltypes, counts, user=None, nontrivial=True, what="", skip_filter=False, seed=0):
+        jobs.append(dict(moltypes=moltypes, counts=counts, user=user, nontrivial=nontrivial, what=what, dir=d, id=len(jobs), skip_filter=skip_filter,
+                         seed=_seed_of("c15", ctx.seed, seed)))
     shapes = c15_shapes()
     tail = Res("TL", [("x", "P", 72.0), ("y", "Q", 36.0)], bonds=[("x", "y", 0.3)])
     # (1) every shape alone in a molecule, and between two copies of a two-atom residue
@@ -1715,6 +1863,39 @@ def c15_jobs(ctx, d):
     for moltypes, counts in mixes:
         add(moltypes, counts, what="mix of residues with equal names / equal content")
         add(moltypes, counts, what="mix, skip_filter path", skip_filter=True)
+    # (3b) residues of ONE molecule (and of two) with the same name, the same atom names and the same number of bonds that differ only in connectivity
+    def R4(order, length=0.3):
+        names = list(order)
+        return Res("R", [(x, "P", 72.0) for x in sorted(names)], bonds=[(names[k], names[k + 1], length) for k in range(len(names) - 1)])
+    chain_abcd, chain_dcab, chain_acbd = R4("abcd"), R4("dcab"), R4("acbd")
+    chain_abc, chain_acb = R4("abc"), R4("acb")
+    star_a = Res("R", [(x, "P", 72.0) for x in "abcd"], bonds=[("a", "b", 0.3), ("a", "c", 0.3), ("a", "d", 0.3)])
+    star_b = Res("R", [(x, "P", 72.0) for x in "abcd"], bonds=[("b", "a", 0.3), ("b", "c", 0.3), ("b", "d", 0.3)])
+    ring_abcd = Res("R", [(x, "P", 72.0) for x in "abcd"], bonds=[("a", "b", 0.3), ("b", "c", 0.3), ("c", "d", 0.3), ("d", "a", 0.3)])
+    ring_acbd = Res("R", [(x, "P", 72.0) for x in "abcd"], bonds=[("a", "c", 0.3), ("c", "b", 0.3), ("b", "d", 0.3), ("d", "a", 0.3)])
+    pan_a = Res("R", [(x, "P", 72.0) for x in "abcd"], bonds=[("a", "b", 0.3), ("b", "c", 0.3), ("c", "a", 0.3), ("a", "d", 0.3)])
+    pan_b = Res("R", [(x, "P", 72.0) for x in "abcd"], bonds=[("a", "b", 0.3), ("b", "c", 0.3), ("c", "a", 0.3), ("b", "d", 0.3)])
+    rewired = [[chain_dcab, chain_abcd], [chain_abcd, tail, chain_dcab, chain_abcd], [chain_abc, chain_acb], [chain_acb, chain_abc, chain_acb],
+               [chain_abcd, chain_acbd, chain_dcab], [star_a, chain_abcd], [star_a, star_b], [chain_abcd, star_b, tail], [ring_abcd, ring_acbd],
+               [pan_a, pan_b], [pan_b, ring_abcd, tail, pan_a]]
+    for residues in rewired:
+        add({"M": residues}, [("M", 1)], what="one molecule, same residue name and atoms, different connectivity")
+        add({"M": residues}, [("M", 2)], what="same residue name and atoms, different connectivity, skip_filter path", skip_filter=True)
+        if len(residues) >= 2:
+            add({"M": residues[:1] + [tail], "N": residues[1:]}, [("N", 1), ("M", 1)], what="two molecule types, same residue name and atoms, different connectivity")
+    # (3c) chiral centres: type-2 improper with a non-zero target of either sign, several seeds of the random initial layout
+    for sign in (1, -1):
+        for order in (("a", "b", "c", "d"), ("a", "c", "b", "d"), ("b", "a", "c", "d")):
+            for sd in range(4 if not ctx.thorough else 12):
+                target = sign * 35.26
+                if order[0] == "a":        # centre first: the GROMOS tetrahedral improper
+                    imp = [(order[0], order[1], order[2], order[3], target)]
+                else:                      # centre second: a 120 degree improper
+                    imp = [(order[0], order[1], order[2], order[3], sign * 120.0)]
+                chiral = Res("CH", [("a", "Q", 36.0), ("b", "P", 72.0), ("c", "P", 72.0), ("d", "T", 12.0)],
+                             bonds=[("a", "b", 0.3), ("a", "c", 0.3), ("a", "d", 0.3)],
+                             angles=[("b", "a", "c", 109.5), ("c", "a", "d", 109.5), ("b", "a", "d", 109.5)], impropers=imp)
+                add({"M": [chiral, tail]}, [("M", 1)], what=f"chiral centre, improper {'-'.join(order)} target {imp[0][4]}", seed=sd)
     # (4) build files with [ template ] and [ volumes ]
     t_abc = ("R", [("a", "P", (1.0, 2.0, 3.0)), ("b", "Q", (1.3, 2.0, 3.0)), ("c", "P", (1.3, 2.3, 3.1))], [("a", "b"), ("b", "c")], True)
     t_ab = ("R", [("a", "P", (0.1, 0.0, 0.0)), ("b", "Q", (0.1, 0.31, 0.0))], [("a", "b")], True)
@@ -1759,7 +1940,9 @@ def run_c15(ctx, res):
     res.bound = (f"{len(jobs)} topologies read from files and run through GenerateTemplates as gen_coords does: 13 residue shapes (1 atom, chains 2-5 with bonds/constraints/angles, "
                  f"rings 3-5, stars 4-5 with an improper, two with targets that cannot be met) alone and repeated; {nvs} virtual-site residues (virtual_sites2, virtual_sites3 funct 1-4, virtual_sites4 funct 2, "
                  "virtual_sitesn funct 1 and 2, 2-4 defining atoms, 3-4 parameter sets each, two sites in one residue); 8 molecule mixes (equal residue name / different atoms, "
-                 "different name / equal content, permuted atom order) with and without skip_filter; 16 build files with [ template ] / [ volumes ] in both orders "
+                 "different name / equal content, permuted atom order) with and without skip_filter; 11 residue lists in which residues of one molecule (and of two molecule types) share name, "
+                 "atom names and bond count but differ in connectivity (chains abcd/dcab/acbd, abc/acb, stars, rings, triangle+tail); chiral centres with a type-2 improper of +-35.26 / +-120 "
+                 f"degrees in 3 atom orders x {4 if not ctx.thorough else 12} seeds of the random initial layout; 16 build files with [ template ] / [ volumes ] in both orders "
                  "(template only, template + size, sizes only, two templates, residue name shared by different residues, one-atom templates with and without a bonds section)"
                  + (f".  Violation classes seen (worlds): {classes}" if classes else ""))
     res.rule = ("oracle: isomorphism of the written atom-name-labelled graphs decides sharing; GROMACS manual formulas decide virtual-site positions (from the template's own defining atoms); "
@@ -1828,22 +2011,89 @@ CV BB R1 R2 -- 1
 """,
 }
 
+C11_BLOCKS["D"] = """[ moleculetype ]
+D 1
+[ atoms ]
+1 TA 1 D BB 1 0.0 36.0
+2 TB 1 D S1 1 0.1 72.0
+3 TB 1 D S2 1 -0.1 72.0
+4 TB 1 D S3 1 0.0 72.0
+5 TV 1 D V3 1 0.0 0.0
+6 TV 1 D V4 1 0.0 0.0
+[ bonds ]
+BB S1 1 0.3 1000
+S1 S2 1 0.3 1000
+S2 S3 1 0.3 1000
+[ impropers ]
+S1 BB S2 S3 2 35.26 50
+[ position_restraints ]
+BB 1 1000 1000 1000
+S1 1 500 500 0 {"ifdef": "POSRES"}
+S3 1 250 0 250 {"ifndef": "FREE"}
+[ distance_restraints ]
+BB S2 1 0 1 0.3 0.4 0.5 1.0
+BB S3 1 1 1 0.5 0.6 0.7 1.0 {"ifdef": "DISRES"}
+[ dihedral_restraints ]
+BB S1 S2 S3 1 180 0 10
+[ orientation_restraints ]
+BB S1 1 1 1 1.0 5.0 1.0
+[ angle_restraints ]
+BB S1 S2 S3 1 90 100 1
+[ angle_restraints_z ]
+BB S1 1 90 100 1 {"ifdef": "ZRES"}
+[ pairs_nb ]
+BB S3 1 0.0 0.0 0.3 1.0
+[ virtual_sites3 ]
+V3 BB S1 S2 1 0.2 0.3
+[ virtual_sites4 ]
+V4 BB S1 S2 S3 2 0.2 0.3 0.1
+"""
+C11_BLOCKS["E"] = """[ moleculetype ]
+E 1
+[ atoms ]
+1 TA 1 E BB 1 0.0 36.0
+2 TB 1 E S1 1 0.0 72.0
+3 TB 1 E S2 1 0.0 72.0
+4 TB 1 E S3 1 0.0 72.0
+5 TB 1 E S4 1 0.0 72.0
+[ bonds ]
+BB S1 1 0.3 1000
+S1 S2 1 0.3 1000
+S2 S3 1 0.3 1000
+S3 S4 1 0.3 1000
+[ cmap ]
+BB S1 S2 S3 S4 1
+"""
+
+
+def c11_pair_links(constraint_pairs, names="ABCD"):
+    """one link per ordered pair of residue names: a plain [ constraints ] entry for the pairs given (no bond twin), a bond otherwise"""
+    out = []
+    for x in names:
+        for y in names:
+            if (x, y) in constraint_pairs:
+                out += ["[ link ]", 'resname "A|B|C|D|E"', "[ constraints ]", 'BB {"resname": "%s"} >BB {"resname": "%s"} 1 0.35' % (x, y)]
+            else:
+                out += ["[ link ]", 'resname "A|B|C|D|E"', "[ bonds ]", 'BB {"resname": "%s"} >BB {"resname": "%s"} 1 0.35 1250' % (x, y)]
+    return "\n".join(out) + "\n"
+
+
 C11_LINKS = {
     "plain": """[ link ]
-resname "A|B|C"
+resname "A|B|C|D|E"
 [ bonds ]
 BB >BB 1 0.35 1250
 """,
     "guarded": """[ link ]
-resname "A|B|C"
+resname "A|B|C|D|E"
 [ bonds ]
 BB >BB 1 0.350 1250 {"group": "backbone"}
 [ link ]
-resname "A|B|C"
+resname "A|B|C|D|E"
 [ angles ]
 BB >BB >>BB 1 140 30 {"ifdef": "STIFF"}
 [ link ]
-resname "A|B|C"
+resname "A|B|C|D|E"
 [ dihedrals ]
 BB >BB >>BB >>>BB 1 180 2.5 1 {"ifndef": "NOTORS"}
 [ link ]
@@ -1861,14 +2111,19 @@ resname "A|B"
 S1 >S1 1 {"ifdef": "PAIRS"}
 """,
     "guarded-bond": """[ link ]
-resname "A|B|C"
+resname "A|B|C|D|E"
 [ bonds ]
 BB >BB 1 0.35 1250 {"ifdef": "FLEX"}
 [ link ]
-resname "A|B|C"
+resname "A|B|C|D|E"
 [ constraints ]
 BB >BB 1 0.35 {"ifndef": "FLEX"}
 """,
+    # junctions that are ONLY a constraint (no bond twin) next to junctions that are bonds
+    "constraint-BB": c11_pair_links({("B", "B")}),
+    "constraint-AA": c11_pair_links({("A", "A")}),
+    "constraint-AB": c11_pair_links({("A", "B"), ("B", "A")}),
+    "constraint-all": c11_pair_links({(x, y) for x in "ABCD" for y in "ABCD"}),
 }
 
 
@@ -1881,10 +2136,26 @@ def c11_graphs(ctx):
     out.append(("json", ("A", "B", "C", "A", "B"), ((0, 1), (1, 2), (2, 3), (1, 4))))
     out.append(("json", ("B", "A", "A", "A"), ((0, 1), (0, 2), (0, 3))))
     out.append(("json", ("A", "A", "A"), ((0, 1), (1, 2))))
+    # blocks with every restraint-like section (D) and with a cmap (E)
+    for seq in (["D"], ["D", "D"], ["A", "D", "B"], ["D", "C", "D"], ["E"], ["A", "E", "A"]):
+        out.append(("seq", tuple(seq), tuple((i, i + 1) for i in range(len(seq) - 1))))
+    out.append(("json", ("D", "A", "D", "B"), ((0, 1), (1, 2), (1, 3))))
     if ctx.thorough:
         out.append(("json", ("A", "B", "A", "C", "B", "A"), ((0, 1), (1, 2), (2, 3), (1, 4), (4, 5))))
         out.append(("seq", ("A", "B", "C", "C", "B", "A"), tuple((i, i + 1) for i in range(5))))
         out.append(("json", ("C", "A", "B", "A", "C"), ((0, 1), (0, 2), (0, 3), (3, 4))))
+    return out
+
+
+def c11_constraint_graphs(ctx):
+    """chains and branches in which the constraint-only junction (A-A, B-B or A-B, depending on the link set) comes first, in the middle, last,
+    several times or not at all"""
+    out = []
+    for seq in ("AABB", "BBAA", "ABBA", "BAAB", "BB", "AA", "AB", "BBB", "AAAB", "ABAB", "BBABB", "AABBAA", "CBBC", "DAAD", "ABBD"):
+        out.append(("seq", tuple(seq), tuple((i, i + 1) for i in range(len(seq) - 1))))
+    out.append(("json", ("B", "B", "A", "A"), ((0, 1), (1, 2), (1, 3))))
+    out.append(("json", ("A", "A", "B", "B", "B"), ((0, 1), (1, 2), (2, 3), (1, 4))))
+    out.append(("json", ("A", "B", "B", "A", "A"), ((0, 1), (0, 2), (0, 3), (3, 4))))
     return out
 
 
@@ -1946,7 +2217,7 @@ def c11_world(job):
     os.makedirs(wd, exist_ok=True)
     try:
         kind, resnames, edges = job["graph"]
-        ff = _write(os.path.join(wd, "ff.ff"), "\n".join(C11_BLOCKS[b] for b in ("A", "B", "C")) + "\n" + C11_LINKS[job["links"]])
+        ff = _write(os.path.join(wd, "ff.ff"), "\n".join(C11_BLOCKS[b] for b in ("A", "B", "C", "D", "E")) + "\n" + C11_LINKS[job["links"]])
         out = Path(os.path.join(wd, "out.itp"))
         kw = {}
         if kind == "seq":
@@ -1974,8 +2245,15 @@ def c11_world(job):
             return True, [("c11-world-setup", f"{len(captured)} molecules captured")]
         atoms_b, inter_b = captured[0]
         types = "TA 36.0 0.0 A 0.40 1.0\nTB 72.0 0.0 A 0.45 1.0\nTV 0.0 0.0 V 0.0 0.0\n"
+        has_cmap = any(sec == "cmap" for (sec, *_r) in inter_b)
         top_path = _write(os.path.join(wd, "sys.top"), "[ defaults ]\n1 2 no 1.0 1.0\n\n[ atomtypes ]\n" + types + '\n#include "out.itp"\n\n[ system ]\nbounded\n\n[ molecules ]\npoly 1\n')
-        top = top_mod.Topology.from_gmx_topfile(top_path, "bounded")
+        try:
+            top = top_mod.Topology.from_gmx_topfile(top_path, "bounded")
+        except OSError as e:
+            if has_cmap and "cmap" in str(e):
+                return True, [("c11-cmap-section-not-readable", f"gen_params wrote a [ cmap ] section ({sum(1 for x in inter_b if x[0] == 'cmap')} entries); "
+                                                               f"reading the file back: {type(e).__name__}: {e}")]
+            raise
         if len(top.molecules) != 1:
             return True, [("c11-reread", f"{len(top.molecules)} molecules read back")]
         back = top.molecules[0]
@@ -2044,7 +2322,8 @@ def run_c11(ctx, res):
     try:
         jobs = []
         for links in C11_LINKS:
-            for graph in c11_graphs(ctx):
+            graphs = c11_constraint_graphs(ctx) if links.startswith("constraint-") else c11_graphs(ctx)
+            for graph in graphs:
                 jobs.append(dict(dir=d, id=len(jobs), links=links, graph=graph, seed=_seed_of("c11", ctx.seed, len(jobs)), run_gen_coords=True))
         out = _pool_map(c11_world, jobs, chunksize=1)
     finally:
@@ -2059,7 +2338,7 @@ def run_c11(ctx, res):
                 stats[k] += result[2][k]
             stats["missing_links"] += int(result[2]["missing_links"] > 0)
             stats["complete"] += int(result[2]["missing_links"] == 0)
-        desc = {"links": job["links"], "force_field": "blocks A, B, C + links '" + job["links"] + "'", "sequence_kind": job["graph"][0],
+        desc = {"links": job["links"], "force_field": "blocks A-E + links '" + job["links"] + "'", "sequence_kind": job["graph"][0],
                 "residues": list(job["graph"][1]), "edges": [list(e) for e in job["graph"][2]]}
         if not bads and nt and len(res.samples) < 3 and job["links"] == "guarded" and len(job["graph"][1]) >= 4:
             res.samples.append(desc)
@@ -2067,9 +2346,11 @@ def run_c11(ctx, res):
             classes[bad[0]] = classes.get(bad[0], 0) + 1
             if len(res.violations) < 25 and bad[0] not in {v.finding_key for v in res.violations}:
                 res.violations.append(Violation("c11-itp-roundtrip", _short(f"{bad[1]}  [{json.dumps(desc)}]", 900), inputs=desc, detail=bad[1], replayed=True, finding_key=bad[0]))
-    res.bound = (f"{len(jobs)} worlds = 4 force fields (3 blocks of 2-4 atoms with bonds, constraints, angles, proper/improper dihedrals, exclusions, pairs, virtual_sites2, virtual_sitesn, "
-                 "#ifdef- and #ifndef-guarded bonds/constraints/angles/dihedrals, masses present and absent, nrexcl 1-3; link sets: plain, guarded angles/dihedrals/constraints, "
-                 "partial (links missing for block C), guarded backbone bond) x residue graphs (chains of 1-5 via -seq, 4 branched graphs of 3-5 via a .json sequence file; thorough +3 of 5-6): "
+    res.bound = (f"{len(jobs)} worlds = {len(C11_LINKS)} force fields: 5 blocks of 2-6 atoms covering every moleculetype section the topology reader registers and the writer emits "
+                 "(bonds, constraints, angles, proper/improper dihedrals, exclusions, pairs, pairs_nb, virtual_sites2/3/4/n, position_, distance_, dihedral_, orientation_, angle_ and "
+                 "angle_z restraints, cmap), #ifdef- and #ifndef-guarded entries in most of them, masses present and absent, nrexcl 1-3; link sets: plain, guarded angles/dihedrals/constraints, "
+                 "partial (links missing for block C), guarded backbone bond, and four sets in which the junction A-A / B-B / A-B / every junction is ONLY a constraint while the others are bonds "
+                 "x residue graphs (chains of 1-6 via -seq, branched graphs of 3-5 via a .json sequence file; constraint-only junction first / middle / last / repeated / absent): "
                  f"gen_params -> file -> Topology.from_gmx_topfile; {stats['atoms']} atoms and {stats['interactions']} interactions compared ({stats['guarded']} guarded); "
                  f"{stats['complete']} worlds without a missing link (residue graph compared, gen_coords run on the file), {stats['missing_links']} with missing links"
                  + (f".  Violation classes seen (worlds): {classes}" if classes else ""))
